@@ -89,8 +89,7 @@ class OptionsSuite(Suite):
     prelude = ('From Sup Require Import Options.\nFrom Coq Require Import PrimFloat.\n'
                'Open Scope Z_scope.')
     case_type = 'case'
-    evals = {'mismatches': 'mismatches', 'spec_violations': 'spec_violations',
-             'known:nan-period': 'known_nan', 'known:synchro-default-aliasing': 'known_aliasing'}
+    evals = {'mismatches': 'mismatches', 'spec_violations': 'spec_violations'}
     shard_size = 200
 
     def __init__(self):
